@@ -329,6 +329,21 @@ func main() {
 			detail += fmt.Sprintf(" OUTSIDE %q parsed: %s;", p, t.DefinedTemplates())
 		}
 	}
+	// the zero TrustedFS wraps no file system: a dynamic pattern must not reach the working directory (or anything else)
+	os.Chdir(root)
+	for _, p := range []string{"secret.tmpl", "*.tmpl", "in/a.tmpl", "*"} {
+		func() {
+			defer func() { recover() }() // a panic yields no template either
+			if t, err := template.ParseFS(template.TrustedFS{}, os.Args[1]+p); err == nil {
+				ok = false
+				detail += fmt.Sprintf(" ZERO TrustedFS %q parsed: %s;", p, t.DefinedTemplates())
+			}
+			if t, err := template.New("n").ParseFS(template.TrustedFS{}, os.Args[1]+p); err == nil {
+				ok = false
+				detail += fmt.Sprintf(" ZERO TrustedFS (method) %q parsed: %s;", p, t.DefinedTemplates())
+			}
+		}()
+	}
 	fmt.Printf("RESULT %v inside=%d outside=%d%s\n", ok, len(inside), len(outside), detail)
 }
 `,
